@@ -154,6 +154,11 @@ pub struct Recs {
     pub held_checked: u64,
     /// injected panics that propagated to the caller
     pub panics: u64,
+    /// every (key, value) the map handed out TOGETHER outside an iteration: (key origin, value id,
+    /// entry point); iteration yields carry theirs
+    pub pairs: Vec<(u32, u64, &'static str)>,
+    /// value id -> origin of the key instance passed to the insert / try_insert that wrote it
+    pub key_of: Vec<(u64, u32)>,
 }
 
 #[derive(Clone, Debug)]
@@ -301,7 +306,8 @@ fn run_thread(wk: &Wk<'_>, map: &FMap, cfg: &CCfg, ops: &[COp], hold: bool, log:
                 let ret = match (g, matches!(op, COp::GetKV(_))) {
                     (Some(g), false) => map.get(&k, g).map(|v| hv!(v)),
                     (Some(g), true) => map.get_key_value(&k, g).map(|(kk, v)| {
-                        hk!(kk);
+                        let o = hk!(kk);
+                        log.recs.pairs.push((o, v.id, "get_key_value"));
                         hv!(v)
                     }),
                     (None, false) => {
@@ -313,7 +319,8 @@ fn run_thread(wk: &Wk<'_>, map: &FMap, cfg: &CCfg, ops: &[COp], hold: bool, log:
                     (None, true) => {
                         let p = map.pin();
                         let r = p.get_key_value(&k).map(|(kk, v)| {
-                            hk!(kk);
+                            let o = hk!(kk);
+                            log.recs.pairs.push((o, v.id, "pin().get_key_value"));
                             hv!(v)
                         });
                         verify_held(log, "before the pin was released");
@@ -340,6 +347,7 @@ fn run_thread(wk: &Wk<'_>, map: &FMap, cfg: &CCfg, ops: &[COp], hold: bool, log:
                 let vid = v.id;
                 log.recs.written.insert(vid, (tag, v.payload));
                 let k = K::new(tag);
+                log.recs.key_of.push((vid, k.origin));
                 wk.user(crate::hb::U_INIT_V, vid, 0);
                 wk.user(crate::hb::U_INIT_K, k.inst, 0);
                 let inv = wk.op_start();
@@ -361,6 +369,7 @@ fn run_thread(wk: &Wk<'_>, map: &FMap, cfg: &CCfg, ops: &[COp], hold: bool, log:
                 let vid = v.id;
                 log.recs.written.insert(vid, (tag, v.payload));
                 let k = K::new(tag);
+                log.recs.key_of.push((vid, k.origin));
                 wk.user(crate::hb::U_INIT_V, vid, 0);
                 wk.user(crate::hb::U_INIT_K, k.inst, 0);
                 let inv = wk.op_start();
@@ -409,7 +418,8 @@ fn run_thread(wk: &Wk<'_>, map: &FMap, cfg: &CCfg, ops: &[COp], hold: bool, log:
                 let ret = match (g, matches!(op, COp::RemoveEntry(_))) {
                     (Some(g), false) => map.remove(&k, g).map(|v| hv!(v)),
                     (Some(g), true) => map.remove_entry(&k, g).map(|(kk, v)| {
-                        hk!(kk);
+                        let o = hk!(kk);
+                        log.recs.pairs.push((o, v.id, "remove_entry"));
                         hv!(v)
                     }),
                     (None, false) => {
@@ -421,7 +431,8 @@ fn run_thread(wk: &Wk<'_>, map: &FMap, cfg: &CCfg, ops: &[COp], hold: bool, log:
                     (None, true) => {
                         let p = map.pin();
                         let r = p.remove_entry(&k).map(|(kk, v)| {
-                            hk!(kk);
+                            let o = hk!(kk);
+                            log.recs.pairs.push((o, v.id, "pin().remove_entry"));
                             hv!(v)
                         });
                         verify_held(log, "before the pin was released");
@@ -437,9 +448,11 @@ fn run_thread(wk: &Wk<'_>, map: &FMap, cfg: &CCfg, ops: &[COp], hold: bool, log:
                 let calls = std::cell::Cell::new(0u32);
                 let seen = std::cell::Cell::new(None::<u64>);
                 let out = std::cell::Cell::new(None::<(u64, u64)>);
+                let seen_key = std::cell::Cell::new(0u32);
                 let f = |kk: &K, v: &V| -> Option<V> {
                     calls.set(calls.get() + 1);
                     seen.set(Some(v.id));
+                    seen_key.set(kk.origin);
                     wk.user(crate::hb::U_ACCESS_K, kk.inst, 0);
                     wk.user(crate::hb::U_ACCESS_V, v.id, 0);
                     match act {
@@ -472,17 +485,22 @@ fn run_thread(wk: &Wk<'_>, map: &FMap, cfg: &CCfg, ops: &[COp], hold: bool, log:
                 if let Some((id, p)) = out.get() {
                     log.recs.written.insert(id, (tag, p));
                 }
+                if let Some(sv) = seen.get() {
+                    log.recs.pairs.push((seen_key.get(), sv, "the closure of compute_if_present"));
+                }
                 log.recs.compute_calls.push((me, inv, calls.get()));
                 log.recs.ops.push(HEnt { thread: me, inv, resp, key: tag, op: HOp::Compute { seen: seen.get(), out: out.get().map(|x| x.0), ret } });
             }
             COp::Retain(p) | COp::RetainForce(p) => {
                 let force = matches!(op, COp::RetainForce(_));
                 let calls = std::cell::RefCell::new(Vec::new());
+                let shown = std::cell::RefCell::new(Vec::new());
                 let f = |k: &K, v: &V| -> bool {
                     wk.user(crate::hb::U_ACCESS_K, k.inst, 0);
                     wk.user(crate::hb::U_ACCESS_V, v.id, 0);
                     let keep = p.keep(k.tag, v.payload);
                     calls.borrow_mut().push((k.tag, v.id, keep, wk.now()));
+                    shown.borrow_mut().push((k.origin, v.id, "the predicate of retain / retain_force"));
                     keep
                 };
                 let inv = wk.op_start();
@@ -493,6 +511,7 @@ fn run_thread(wk: &Wk<'_>, map: &FMap, cfg: &CCfg, ops: &[COp], hold: bool, log:
                     (None, true) => map.pin().retain_force(f),
                 }
                 let resp = wk.op_end();
+                log.recs.pairs.extend(shown.into_inner());
                 log.recs.retains.push(RetainRec { thread: me, force, inv, resp, calls: calls.into_inner() });
             }
             COp::RetainPanic { pred, force, at } => {
@@ -641,6 +660,7 @@ pub fn build_map(prog: &Prog) -> (Arc<FMap>, BTreeMap<u32, (u32, u64, u64)>) {
 
 pub struct SchedSpec<'a> {
     pub switches: Vec<(u64, u8)>,
+    pub relative: Vec<(u8, u64, u8)>,
     pub random: Option<(u64, u32)>,
     pub record_trace: bool,
     pub probe: Option<ProbeMaker<'a>>,
@@ -648,7 +668,7 @@ pub struct SchedSpec<'a> {
 }
 impl Default for SchedSpec<'_> {
     fn default() -> Self {
-        SchedSpec { switches: vec![], random: None, record_trace: false, probe: None, step_budget: 200_000 }
+        SchedSpec { switches: vec![], relative: vec![], random: None, record_trace: false, probe: None, step_budget: 200_000 }
     }
 }
 
@@ -721,7 +741,7 @@ pub fn exec(pool: &Pool, prog: &Prog, spec: SchedSpec<'_>, opts: &ExecOpts, map_
     }
     let probe_data: Arc<Mutex<ProbeData>> = Arc::new(Mutex::new(ProbeData::default()));
     let probe = spec.probe.map(|mk| mk(prog, &map, probe_data.clone()));
-    let rs = RunSpec { switches: spec.switches, random: spec.random, record_trace: spec.record_trace, probe, step_budget: spec.step_budget, first: 0, sink };
+    let rs = RunSpec { switches: spec.switches, relative: spec.relative, random: spec.random, record_trace: spec.record_trace, probe, step_budget: spec.step_budget, first: 0, sink };
     let out = sched::run(pool, rs, bodies);
     drop(out.sink);
     let mut recs = Recs::default();
@@ -737,6 +757,8 @@ pub fn exec(pool: &Pool, prog: &Prog, spec: SchedSpec<'_>, opts: &ExecOpts, map_
             recs.written.extend(r.written);
             recs.held_checked += r.held_checked;
             recs.panics += r.panics;
+            recs.pairs.extend(r.pairs);
+            recs.key_of.extend(r.key_of);
         }
     }
     let mut oracle_fail: Option<(&'static str, String)> = None;
@@ -974,6 +996,8 @@ pub enum Mix {
     LongMixed,
     /// as LongMixed plus full iterations, retain / retain_force, clear and len
     LongReaders,
+    /// many threads (up to 129) with one operation each on one crowded bin, plus one writer
+    Crowd,
 }
 
 fn key_strategy(hot: u16) -> BoxedStrategy<u16> {
@@ -1096,6 +1120,13 @@ pub fn cop_strategy(mix: Mix, hot: u16) -> BoxedStrategy<COp> {
             8 => (0u16..40).prop_map(COp::Insert),
             1 => k.clone().prop_map(COp::Remove),
             1 => (1u16..80).prop_map(COp::Reserve),
+        ]
+        .boxed(),
+        Mix::Crowd => prop_oneof![
+            5 => k.clone().prop_map(COp::Insert),
+            4 => k.clone().prop_map(COp::Remove),
+            2 => (k.clone(), act.clone()).prop_map(|(k, a)| COp::Compute(k, a)),
+            1 => k.clone().prop_map(COp::Get),
         ]
         .boxed(),
         Mix::Readers => prop_oneof![
@@ -1236,7 +1267,43 @@ fn treemove_prog_strategy(max_threads: usize) -> BoxedStrategy<Prog> {
         .boxed()
 }
 
+/// numbers of simultaneously registered threads around the powers of two (counts kept in a few
+/// bits of a shared word, queues of waiters) plus small ones
+pub const CROWD_SIZES: [u16; 20] = [1, 2, 3, 4, 7, 8, 9, 15, 16, 17, 31, 32, 33, 63, 64, 65, 96, 127, 128, 129];
+
+/// `size` threads with one operation each on the keys of one crowded bin (a tree bin of 9-14 keys,
+/// or a list bin) -- mostly lookups, or mostly updates -- followed by one writer with 1-3 operations
+/// on the same bin
+fn crowd_prog_strategy() -> BoxedStrategy<Prog> {
+    let hm = prop_oneof![3 => Just(HMode::Identity), 1 => Just(HMode::SameBin), 1 => Just(HMode::Const0)];
+    let n = prop_oneof![6 => 9u16..15, 1 => Just(3u16), 1 => Just(7u16)];
+    (hm, n, proptest::sample::select(CROWD_SIZES.to_vec()), prop_oneof![Just(GuardMode::PerOp), Just(GuardMode::PerThread), Just(GuardMode::Pin)], 0u8..3).prop_flat_map(|(hmode, n, size, gmode, kind)| {
+        let hot = n + 2;
+        let read = {
+            let k = key_strategy(hot);
+            prop_oneof![5 => k.clone().prop_map(COp::Get), 1 => k.clone().prop_map(COp::GetKV), 1 => k.prop_map(COp::Contains)].boxed()
+        };
+        let write = cop_strategy(Mix::Crowd, hot);
+        // kind 0: all lookups; 1: lookups with a few updates among them; 2: mostly updates
+        let member = match kind {
+            0 => read.clone(),
+            1 => prop_oneof![9 => read.clone(), 1 => write.clone()].boxed(),
+            _ => prop_oneof![1 => read.clone(), 3 => write.clone()].boxed(),
+        };
+        let tail = proptest::collection::vec(cop_strategy(Mix::Crowd, hot), 1..4);
+        (proptest::collection::vec(member, size as usize), tail).prop_map(move |(members, tail)| {
+            let mut threads: Vec<Vec<COp>> = members.into_iter().map(|o| vec![o]).collect();
+            threads.push(tail);
+            Prog { cfg: CCfg { hmode, capacity: 43, batch: 8, gmode, hot_pat: 1 }, filler: 4, hot_init: (0..n).collect(), threads }
+        })
+    })
+    .boxed()
+}
+
 pub fn prog_strategy(mix: Mix, max_threads: usize, max_ops: usize) -> BoxedStrategy<Prog> {
+    if mix == Mix::Crowd {
+        return crowd_prog_strategy();
+    }
     if mix == Mix::Helpers {
         return helpers_prog_strategy(max_threads);
     }
@@ -1333,6 +1400,11 @@ pub struct Budget {
     /// number of sampled three-preemption schedules whose preemption points are accesses to the
     /// map's control words (the resize election / counting protocol)
     pub triple: usize,
+    /// > 0: explore with staggered waves instead (crowd programs: every thread but the last runs
+    /// d steps into its operation and is parked there, then the last thread runs), at most this
+    /// many schedules
+    #[serde(default)]
+    pub stagger: usize,
 }
 
 #[derive(Clone, Debug, Serialize, Deserialize)]
@@ -1396,6 +1468,9 @@ pub fn explore(pool: &Pool, prog: &Prog, budget: &Budget, opts: &ExecOpts, mk_pr
             }
         }
     };
+    if budget.stagger > 0 {
+        return explore_staggered(pool, prog, budget, opts, judge);
+    }
     // 0 preemptions
     let base = match run_one(&mut ex, vec![], None, true) {
         Some(b) => b,
@@ -1518,6 +1593,101 @@ pub fn explore(pool: &Pool, prog: &Prog, budget: &Budget, opts: &ExecOpts, mk_pr
         let seed = crate::runner::splitmix(budget.tape_seed ^ (i as u64 + 1));
         let gap = [3u32, 8, 20, 60][i % 4];
         if run_one(&mut ex, vec![], Some((seed, gap)), false).is_none() {
+            return ex;
+        }
+    }
+    ex
+}
+
+/// Exploration of crowd programs: the members (every thread but the last) are driven `d` steps
+/// into their operation one after the other and left there, then the last thread runs; when it
+/// blocks or finishes the members resume in turn.  All `d` up to the longest member operation;
+/// for each of them a second round in which the last thread is itself preempted at one of up to
+/// six evenly spaced points (the members then resume while it is inside its critical section);
+/// and waves with a generated depth per member.
+fn explore_staggered(pool: &Pool, prog: &Prog, budget: &Budget, opts: &ExecOpts, judge: Judge<'_>) -> Explored {
+    let mut ex = Explored { schedules: 0, steps: 0, failure: None, nontrivial_schedules: Vec::new(), classes: BTreeMap::new() };
+    let mut left = budget.stagger;
+    let run_one = |ex: &mut Explored, relative: Vec<(u8, u64, u8)>, trace: bool| -> Option<ConcOut> {
+        if std::env::var_os("FVH_TRACE_SCHED").is_some() {
+            eprintln!("relative schedule {:?}", relative);
+        }
+        let spec = SchedSpec { relative, record_trace: trace, ..Default::default() };
+        let out = exec(pool, prog, spec, opts, None);
+        ex.schedules += 1;
+        ex.steps += out.steps;
+        match judge(prog, &out) {
+            Ok((nt, classes)) => {
+                if nt {
+                    ex.nontrivial_schedules.push(sched_hash(&out.performed));
+                }
+                for (c, n) in classes {
+                    *ex.classes.entry(c).or_insert(0) += n;
+                }
+                Some(out)
+            }
+            Err((prop, msg)) => {
+                ex.failure = Some((SchedDesc { switches: out.performed.clone() }, prop, msg));
+                None
+            }
+        }
+    };
+    let base = match run_one(&mut ex, vec![], true) {
+        Some(b) => b,
+        None => return ex,
+    };
+    let n = prog.threads.len();
+    if n < 2 {
+        return ex;
+    }
+    let members = n - 1;
+    let mut len = vec![0u64; n];
+    for t in &base.trace {
+        len[t.thread as usize] += 1;
+    }
+    let dmax = len[..members].iter().copied().max().unwrap_or(1).min(48);
+    let tail_len = len[members].max(1);
+    let wave = |d: &dyn Fn(usize) -> u64| -> Vec<(u8, u64, u8)> { (0..members).filter(|t| d(*t) > 0).map(|t| (t as u8, d(t), (t + 1) as u8)).collect() };
+    // a member that is not preempted (depth 0 or beyond its length) runs to completion and hands
+    // over to the next thread by itself
+    for d in 1..=dmax {
+        if left == 0 {
+            return ex;
+        }
+        left -= 1;
+        if run_one(&mut ex, wave(&|_| d), false).is_none() {
+            return ex;
+        }
+    }
+    let points: Vec<u64> = (1..=6u64).map(|i| (tail_len * i / 7).max(1)).collect::<std::collections::BTreeSet<_>>().into_iter().collect();
+    for d in 1..=dmax {
+        for w in &points {
+            if left == 0 {
+                return ex;
+            }
+            left -= 1;
+            let mut r = wave(&|_| d);
+            r.push((members as u8, *w, 0));
+            if run_one(&mut ex, r, false).is_none() {
+                return ex;
+            }
+        }
+    }
+    let mut rng = crate::runner::splitmix(budget.tape_seed ^ 0xc0_07d);
+    while left > 0 {
+        left -= 1;
+        let depths: Vec<u64> = (0..members)
+            .map(|t| {
+                rng = crate::runner::splitmix(rng);
+                rng % (len[t] + 2)
+            })
+            .collect();
+        rng = crate::runner::splitmix(rng);
+        let mut r = wave(&|t| depths[t]);
+        if rng % 2 == 0 {
+            r.push((members as u8, 1 + (rng >> 8) % tail_len, 0));
+        }
+        if run_one(&mut ex, r, false).is_none() {
             return ex;
         }
     }
